@@ -107,6 +107,7 @@ type fpProgram struct {
 	Reqs     []fpReq
 	Delay    bool // announce capability=delay
 	SkipErrs bool // lfs.skipdownloaderrors
+	Batch    int  // lfs.transfer.batchsize (0 = default 100)
 }
 
 type fpServer struct {
@@ -393,7 +394,7 @@ func (p fpProgram) encode() string {
 		r.PayloadHex = hx(r.Payload)
 		rs[i] = r
 	}
-	b, _ := json.Marshal(map[string]interface{}{"objects": os_, "reqs": rs, "delay": p.Delay, "skiperrs": p.SkipErrs})
+	b, _ := json.Marshal(map[string]interface{}{"objects": os_, "reqs": rs, "delay": p.Delay, "skiperrs": p.SkipErrs, "batch": p.Batch})
 	return "FP " + string(b)
 }
 
@@ -410,6 +411,7 @@ func decodeFpProgram(s string) (fpProgram, bool) {
 		Reqs     []fpReq `json:"reqs"`
 		Delay    bool    `json:"delay"`
 		SkipErrs bool    `json:"skiperrs"`
+		Batch    int     `json:"batch"`
 	}
 	if json.Unmarshal([]byte(s[3:]), &raw) != nil {
 		return p, false
@@ -421,12 +423,25 @@ func decodeFpProgram(s string) (fpProgram, bool) {
 		r.Payload = unhx(r.PayloadHex)
 		p.Reqs = append(p.Reqs, r)
 	}
-	p.Delay, p.SkipErrs = raw.Delay, raw.SkipErrs
+	p.Delay, p.SkipErrs, p.Batch = raw.Delay, raw.SkipErrs, raw.Batch
 	return p, true
 }
 
 func genFpProgram(r *Rng, c *Ctx) fpProgram {
 	p := fpProgram{Delay: r.Chance(65), SkipErrs: r.Chance(50)}
+	if r.Chance(12) {
+		// directed: a checkout of MANY files that all have to be downloaded, several batches' worth of them
+		// (small lfs.transfer.batchsize), every one delayed — the downloads finish while Git keeps asking
+		p = fpProgram{Delay: true, SkipErrs: false, Batch: Pick(r, []int{1, 2, 3})}
+		n := 2*p.Batch + 2 + r.Intn(8)
+		for i := 0; i < n; i++ {
+			p.Objects = append(p.Objects, fpObject{Content: r.Bytes(Pick(r, []int{5, 300, 5000})), Where: "server"})
+			o := p.Objects[i]
+			p.Reqs = append(p.Reqs, fpReq{Cmd: "smudge", Path: fmt.Sprintf("dir/f%d.bin", i), Obj: i, CanDelay: true, PktSize: 65516,
+				Payload: canonicalPointer(sha(o.Content), int64(len(o.Content)))})
+		}
+		return p
+	}
 	nobj := 1 + r.Intn(5)
 	for i := 0; i < nobj; i++ {
 		sz := Pick(r, []int{1, 5, 300, 1023, 1024, 1025, 5000, 65515, 65516, 65517, 70000})
@@ -543,6 +558,9 @@ func runFpProgram(c *Ctx, pi int, p fpProgram) (mlines, mimpl []string) {
 	git("config", "lfs.transfer.maxretries", "1")
 	git("config", "lfs.transfer.maxretrydelay", "0")
 	git("config", "lfs.concurrenttransfers", "3")
+	if p.Batch > 0 {
+		git("config", "lfs.transfer.batchsize", fmt.Sprint(p.Batch))
+	}
 	if p.SkipErrs {
 		git("config", "lfs.skipdownloaderrors", "true")
 	}
